@@ -78,6 +78,22 @@ def strip_lean_comments(text):
     return "".join(out)
 
 
+_POOL_FN = None
+
+
+def _pool_chunk(items):
+    out = []
+    for inp in items:
+        try:
+            res = _POOL_FN(inp)
+            out.append((inp, res[0], str(res[1])[:500], res[2] if len(res) > 2 else None))
+        except Timeout:
+            out.append((inp, True, "timeout", None))
+        except Exception as ex:  # noqa: BLE001
+            out.append((inp, False, f"oracle raised {type(ex).__name__}: {ex}", None))
+    return out
+
+
 class Ctx:
     def __init__(self, pid, tier, seed):
         self.pid = pid
@@ -130,16 +146,52 @@ class Ctx:
         """Evaluate a direct property oracle on the implementation. Returns ok."""
         fn = self.mod.ORACLES[oracle]
         self.count("oracle:" + oracle)
+        cls = None
         try:
-            ok, detail = fn(inp)
+            res = fn(inp)
+            ok, detail = res[0], res[1]
+            if len(res) > 2:
+                cls = res[2]          # (oracle, input) under which this failure is classified (a call-site finding)
         except Timeout:
             ok, detail = True, "timeout"
             self.bump("oracle-timeouts")
         if nontrivial:
             self.nontriv((oracle, json.dumps(inp, sort_keys=True, ensure_ascii=False)))
         if not ok:
-            self.violation(oracle, inp, detail)
+            if cls:
+                self.violation(cls[0], cls[1], f"{json.dumps(inp, ensure_ascii=False)}: {detail}")
+            else:
+                self.violation(oracle, inp, detail)
         return ok
+
+    def check_many(self, oracle, inputs, procs=None):
+        """ctx.check over many inputs; thorough tier fans out over worker processes (fork)."""
+        inputs = list(inputs)
+        if procs is None:
+            procs = 16 if (self.tier == "thorough" and len(inputs) >= 4000) else 1
+        if procs <= 1:
+            for inp in inputs:
+                if self.left() < 45:
+                    self.notes.append(f"{oracle}: sweep stopped early (time budget) ")
+                    break
+                self.check(oracle, inp)
+            return
+        import multiprocessing as mp
+        global _POOL_FN
+        _POOL_FN = self.mod.ORACLES[oracle]
+        chunks = [inputs[i::procs * 8] for i in range(procs * 8)]
+        with mp.get_context("fork").Pool(procs) as pool:
+            for res in pool.imap_unordered(_pool_chunk, chunks):
+                for inp, ok, detail, cls in res:
+                    self.count("oracle:" + oracle)
+                    self.nontriv((oracle, json.dumps(inp, sort_keys=True, ensure_ascii=False)))
+                    if detail == "timeout":
+                        self.bump("oracle-timeouts")
+                    if not ok:
+                        if cls:
+                            self.violation(cls[0], cls[1], f"{json.dumps(inp, ensure_ascii=False)}: {detail}")
+                        else:
+                            self.violation(oracle, inp, detail)
 
     def violation(self, oracle, inp, detail):
         key = finding_key(oracle, inp)
